@@ -20,6 +20,8 @@ int main(int argc, char** argv)
 		for (int i = 0; i < 4; i++) for (int j = 0; j < 4; j++) { cmp(R(i, j), i == j); cmp(L(i, j), i == j); } }
 	else if (claim == "inv3") { Matrix3_<double> M; for (int i = 0; i < 2; i++) for (int j = 0; j < 3; j++) M(i, j) = v[3 * i + j]; Matrix3_<double> I = M.inverse(), R = M * I, L = I * M;
 		for (int i = 0; i < 3; i++) for (int j = 0; j < 3; j++) { cmp(R(i, j), i == j); cmp(L(i, j), i == j); } }
+	else if (claim == "inv3g") { Matrix3_<double> M; for (int i = 0; i < 3; i++) for (int j = 0; j < 3; j++) M(i, j) = v[3 * i + j]; Matrix3_<double> I = M.inverse();
+		for (int i = 0; i < 3; i++) for (int j = 0; j < 3; j++) { double r = 0, l = 0; for (int k = 0; k < 3; k++) { r += M(i, k) * I(k, j); l += I(i, k) * M(k, j); } cmp(r, i == j); cmp(l, i == j); } }
 	else if (claim == "detmul4") { Matrix4_<double> A, B; for (int i = 0; i < 4; i++) for (int j = 0; j < 4; j++) { A(i, j) = v[4 * i + j]; B(i, j) = v[16 + 4 * i + j]; } cmp((A * B).det(), A.det() * B.det()); }
 	else if (claim == "detmul3") { Matrix3_<double> A, B; for (int i = 0; i < 2; i++) for (int j = 0; j < 3; j++) { A(i, j) = v[3 * i + j]; B(i, j) = v[6 + 3 * i + j]; } cmp((A * B).det(), A.det() * B.det()); }
 	else if (claim == "solve" || claim == "solvediv" || claim == "lsq") { if (claim == "solvediv") claim = "solve"; int c = claim == "solve" ? n : m; Matrix_<double> A(n, c), b(n, 1); int k = 0;
